@@ -51,13 +51,5 @@ void vn_skip(void);
 #define ND_FINITE(n) ND_KIND_DBL(n, VK_DOUBLE); VASSUME(V_FINITE(n))
 #define ND_ANGLE(n) ND_KIND_DBL(n, VK_ANGLE); VASSUME(V_FINITE(n))
 
-/* explicit slot for lemma harnesses (K2): own object or no slot at all */
-#define ND_ERRSLOT(error) xrl_error *error##_obj = NULL; ND_BOOL(error##_present); xrl_error **error = error##_present ? &error##_obj : NULL
-#ifdef VERIF_CBMC
-#define ERRSLOT_DONE(error)
-#else
-#define ERRSLOT_DONE(error) xrl_clear_error(&error##_obj)
-#endif
-
 #define LEMMA(name) void name(void)
 #endif
